@@ -268,7 +268,7 @@ def run_state(case, rec):
 
 
 def run(ctx):
-    max_cost = ctx.pick(4, 6)
+    max_cost = ctx.pick(5, 6)
     states, transitions, viols = bfs(max_cost)
     _STATES[:] = states
     ctx.rec.transitions += transitions
@@ -292,7 +292,7 @@ def run(ctx):
 def replay(doc):
     from mc.core import Recorder, jdump
     print('history:', jdump(doc['case'])[:800])
-    states, _, viols = bfs(6 if doc.get("tier") == "thorough" else 4)
+    states, _, viols = bfs(6 if doc.get("tier") == "thorough" else 5)
     _STATES[:] = states
     rec = Recorder()
     for i, st in enumerate(states):
